@@ -61,7 +61,7 @@ def run_batches(cases, timeout=240, max_threads=16):
                 sem_lock.wait()
             avail[0] -= w
         try:
-            results[i] = vlib.run_case(cmd_of(c), timeout=timeout, tag="m%d/t%d/ck%d/g%d/p%d/fp%d/v%d" % (c["mseed"], c["threads"], c["ckpt"], c["gvt"], c["pseed"], c["fp"], c["variant"]))
+            results[i] = vlib.run_case(cmd_of(c), timeout=timeout, env=c.get("env"), tag="m%d/t%d/ck%d/g%d/p%d/fp%d/v%d" % (c["mseed"], c["threads"], c["ckpt"], c["gvt"], c["pseed"], c["fp"], c["variant"]))
         finally:
             with sem_lock:
                 avail[0] += w
@@ -108,3 +108,15 @@ def run_sim_cases(chk, cases, timeout=240, retries=1):
             break
     chk.stats["cases_unusable_after_retries"] = chk.stats.get("cases_unusable_after_retries", 0) + len(todo)
     return all_recs
+
+
+def run_sim_for(chk, prop, tier, seed):
+    """Runtime-side part of the allocator-centred properties: oracle A of C05 (state digest after every rollback) and C13
+    (fossil cut at a checkpoint at/below the committed frontier, rollbacks right after a collection)."""
+    if prop == "C05":
+        n = 100 if tier == "quick" else 1600
+        cases = make_cases(prop, tier, seed, n, variants=(0,), fp_levels=(1, 2, 3), sizes=(0, 0, 1), ckpts=[0, 1, 2, 3, 5, 7, 64, 16])
+    else:
+        n = 100 if tier == "quick" else 1600
+        cases = make_cases(prop, tier, seed, n, variants=(0, 0, 1), fp_levels=(2, 3, 1), sizes=(0, 0, 1), gvts=[0, 0, 20, 0, 100], ckpts=[1, 2, 3, 4, 5, 6, 7])
+    return run_sim_cases(chk, cases, timeout=300)
